@@ -19,6 +19,8 @@ fn alphabet<C: Cfg>() -> Vec<Letter> {
     let mut v = all_pairs(2);
     v.push(Letter::new(1, 0, 1));
     v.push(Letter::new(1, 1, 1));
+    // (a user-written model may give one symbol the whole interval: zero bits decoded, nothing refilled, nothing flushed back)
+    v.push(Letter::new(2, 0, 4));
     let mp = max_prec::<C>();
     let t = 1u64 << mp;
     v.extend([Letter::new(mp, 0, 1), Letter::new(mp, t - 1, 1), Letter::new(mp, 1, t - 2), Letter::new(mp, t / 2, t / 2 - 1)]);
